@@ -78,18 +78,25 @@ Theorem C11_update_is_sequential_assignment :
 Proof. exact (update_app table feats). Qed.
 Print Assumptions C11_update_is_sequential_assignment.
 
-(* ... and an entry "key = text" of a configuration file (converted once by
-   load_from_file and once more by Configuration.update) gives the same
-   result as assigning the stripped text directly, for every known key. *)
-Theorem C11_file_route_agrees :
-  forall (sec key text : str) (d : dict),
-    key_exists table feats sec (lower (strip key)) = true ->
-    file_text text <> [] ->
-    file_route table feats sec key text d
-    = setitem table feats sec (lower (strip key))
-              (VS (SStr (file_text text))) d.
-Proof. exact (file_route_agrees table feats). Qed.
-Print Assumptions C11_file_route_agrees.
+(* ... and a line of a configuration file (comment removed, not a header)
+   is split at its FIRST "=" -- further "=" belong to the value -- and gives
+   the same result as assigning the stripped text right of it to the
+   stripped, lower-cased name left of it (converted once by load_from_file
+   and once more by Configuration.update), for every known key. *)
+Theorem C11_file_line_agrees :
+  forall (sec line rawvar rawval : str) (d : dict),
+    let l := strip (before_hash line) in
+    (starts_with [91] l && ends_with [93] l) = false ->
+    count_c 61 rawvar = 0 ->
+    l = rawvar ++ 61 :: rawval ->
+    lower (strip rawvar) <> [] ->
+    key_exists table feats sec (lower (strip rawvar)) = true ->
+    file_text rawval <> [] ->
+    line_route table feats sec line d
+    = setitem table feats sec (lower (strip rawvar))
+              (VS (SStr (file_text rawval))) d.
+Proof. exact (line_route_agrees table feats). Qed.
+Print Assumptions C11_file_line_agrees.
 
 (* Every key of the generated table is found under its own lower-case name
    with the converter the table gives. *)
